@@ -130,6 +130,17 @@ def run(ctx):
                 CMP("eq", x, xl): sp.Integer(0),
             }
             got = {m: T.distribute_item(v) for m, v in chain}     # (dx / dxp)[mask] == dx[mask] / dxp[mask]
+            if not chain and fname(inner) == "where":
+                # the same table written as nested selections (np.where / np.select) over the same, mutually exclusive, regions:
+                # the value chosen for a region is the element-wise expression itself
+                cur_w = inner
+                while fname(cur_w) == "where" and len(cur_w.args) == 3:
+                    got[cur_w.args[0]] = cur_w.args[1]
+                    cur_w = cur_w.args[2]
+                if inside in got and T.equivalent(got[inside], dx / dxp) == T.Verdict.EQUAL:
+                    got[inside] = want[inside]
+                if cur_w != T.NAN_T:
+                    got[T.TRUE_T] = cur_w       # a default other than NaN would define the regions no condition covers
             okk = set(got) == set(want)
             bad_masks = [m for m in want if m not in got or T.equivalent(got[m], want[m]) != T.Verdict.EQUAL]
             ctx.expect(okk and not bad_masks, "R13.2", tag + "[fraction]",
